@@ -18,6 +18,8 @@ pub fn cfg() -> GenCfg {
         interrupts: true,
         protos: true,
         max_stmts: 4,
+        self_calls: true,
+        banked_permille: 200,
         ..GenCfg::default()
     }
 }
@@ -135,12 +137,28 @@ pub fn check(case: &SemCase, st: &mut Stats, ex: &Excl) -> Result<(), String> {
             if *n != f.name {
                 syms.insert(n.clone(), 0xD000);
             }
+            // bank-switching trampoline of a function placed in another bank
+            syms.insert(format!("Call{}", n), 0xD100);
         }
-        if let Ok(a) = asm6502::assemble(&[Source { name: &f.name, text: &f.asm, epilogue: "" }], 0xC000, &syms) {
+        // the body of an inline function returns with `JMP .endof`, a label that only exists
+        // once the body is expanded in a caller
+        let epilogue = if f.asm.contains(".endof") && !f.asm.lines().any(|l| l.trim() == ".endof") { ".endof\n" } else { "" };
+        let parsed = asm6502::assemble(&[Source { name: &f.name, text: &f.asm, epilogue }], 0xC000, &syms);
+        if let Err(e) = &parsed {
+            st.count("jsr_scan_skipped(text does not assemble: C13's business)");
+            st.count(&format!("jsr_scan_skipped:{:?}", e.kind).chars().take(60).collect::<String>());
+        }
+        if let Ok(a) = parsed {
             for it in &a.units[0].items {
                 if let Item::Instr(i) = it {
                     if i.mnemonic == "JSR" {
                         if let Some(g) = i.symbols.first() {
+                            // `JSR Callf` is the cross-bank call of f
+                            let g = match g.strip_prefix("Call") {
+                                Some(rest) if names.contains(rest) => rest.to_string(),
+                                _ => g.clone(),
+                            };
+                            let g = &g;
                             if !reach.contains(g) {
                                 return Err(format!(
                                     "C12-jsr: the code emitted for {} contains JSR {} but {} is not reachable from {} in the published call tree",
